@@ -27,7 +27,7 @@ def main():
             # normalise the demo command to run inside our worktree
             cmd = re.sub(r"/tmp/seedwt_\w+", WT, cmd)
             cmd = re.sub(r"CARGO_TARGET_DIR=\S+\s*", "", cmd)
-            cmd = re.sub(r"^cd \S+\s*&&\s*", "", cmd)
+            cmd = re.sub(r"^cd .*?&&\s*", "", cmd)
             res = {"demo_cmd": cmd}
             reset()
             rc, out = sh("git apply %s" % shlex.quote(os.path.join(sd, "demo.diff")))
